@@ -72,10 +72,18 @@ func (d *Driver) read() {
 
 				var subID int
 
-				messageID = getID(patterns.messageID.FindSubmatch(b))
+				// look for the ids in the payload rather than the framed bytes: with 1.1 framing
+				// the server may legally start a new chunk in the middle of the message-id
+				// attribute, hiding it from the pattern (and losing the reply)
+				idb := b
+				if d.SelectedVersion == V1Dot1 {
+					idb = patterns.v1Dot1ChunkHeader.ReplaceAll(b, nil)
+				}
 
-				if bytes.Contains(b, []byte("</subscription-id>")) {
-					subID = getID(patterns.subscriptionID.FindSubmatch(b))
+				messageID = getID(patterns.messageID.FindSubmatch(idb))
+
+				if bytes.Contains(idb, []byte("</subscription-id>")) {
+					subID = getID(patterns.subscriptionID.FindSubmatch(idb))
 				}
 
 				if messageID != 0 {
